@@ -246,6 +246,13 @@ func (l wsLink) Expect(d time.Duration) (*srv.Elem, error) {
 func (l wsLink) StartTLS(tls.Certificate, time.Duration) error { return errors.New("no STARTTLS over WebSocket") }
 func (l wsLink) RestartStream()                                {}
 
+type delayedCloser struct{ negLink }
+
+func (d delayedCloser) Close() {
+	time.Sleep(40 * time.Millisecond)
+	d.negLink.Close()
+}
+
 func negServe(w *tr.Writer, conn negLink, sc negConn, n int, opDone <-chan struct{}, sessUp *int32, handled *int32, lenient bool, failCond string) {
 	authed := false
 	var pending *srv.Elem // an element read but not yet answered
@@ -268,6 +275,13 @@ func negServe(w *tr.Writer, conn negLink, sc negConn, n int, opDone <-chan struc
 		}
 	}
 	closed := false
+	if _, isWS := conn.(wsLink); isWS {
+		// a drop "in reply to" a request: let the client finish writing that request first. Over WebSocket a drop that
+		// races with the end of the client's write is reported to the client as a failed WRITE (although the frame
+		// left), which is a different situation from a request that was written and never answered.
+		inner := conn
+		conn = delayedCloser{inner}
+	}
 	for _, r := range sc.Replies {
 		if r.Stage == "cert" {
 			w.Emit(tr.Rec{"ev": "srvrep", "stage": r.Stage, "v": r.V, "mechs": []string{}})
@@ -396,6 +410,15 @@ func negServe(w *tr.Writer, conn negLink, sc negConn, n int, opDone <-chan struc
 				out = "<bogus xmlns='urn:example:unexpected'/>"
 			case "close":
 				conn.Close()
+				closed = true
+			case "reset":
+				// the connection is reset (RST) instead of being closed: the client sees an operation error, not an EOF
+				time.Sleep(20 * time.Millisecond)
+				if rc, ok := conn.(interface{ Reset() }); ok {
+					rc.Reset()
+				} else {
+					conn.Close()
+				}
 				closed = true
 			}
 		case "bindr":
